@@ -199,6 +199,10 @@ func runC12Conc(c c12Conc) error {
 						errs <- fmt.Errorf("handler of transaction %d received a message for id %x", id, e.TransactionID)
 					case string(e.Message.Raw) != string(want):
 						errs <- fmt.Errorf("handler of transaction %d received datagram %x, want its own response %x", id, e.Message.Raw, want)
+					default:
+						if why := decodedMatchesRaw(e.Message); why != "" {
+							errs <- fmt.Errorf("handler of transaction %d: the Message is not the decode of its own bytes: %s", id, why)
+						}
 					}
 				})
 				if derr != nil {
